@@ -180,10 +180,12 @@ public:
   }
 
   size_type hashpower() const {
+    LIBCUCKOO_VERIF_HOOK(LIBCUCKOO_VH_LD_HP, this, 0, 0);
     return hashpower_.load(std::memory_order_acquire);
   }
 
   void hashpower(size_type val) {
+    LIBCUCKOO_VERIF_HOOK(LIBCUCKOO_VH_ST_HP, this, val, 0);
     hashpower_.store(val, std::memory_order_release);
   }
 
